@@ -160,7 +160,8 @@ impl Engine for RollingEngine {
             };
             let per: Vec<u64> = (0..nthreads).map(|_| rng.range(if shared { 1 } else { 1 }, 3)).collect();
             let rmdir = rot != "never" && rng.chance(1, 12) && matches!(clock["mode"].as_str(), Some("to_boundary") | Some("after_boundary") | Some("jump"));
-            steps.push(json!({"clock": clock, "writes": per, "rmdir": rmdir}));
+            let deep = rmdir && rng.chance(1, 2);
+            steps.push(json!({"clock": clock, "writes": per, "rmdir": rmdir, "rmdir_deep": deep}));
         }
         let sched = if shared { Sched::swarm(&mut rng, 200) } else { Sched::op_order(rng.next_u64()) };
         json!({"engine": "rolling", "prop": g.prop, "mode": g.mode, "cfg": {"rot": rot, "prefix": prefix, "suffix": suffix, "limit": limit, "shared": shared, "threads": nthreads, "start": start, "decoys": rng.chance(1, 3), "old_logs": if !limit.is_null() && rot != "never" && (!prefix.is_null() || !suffix.is_null()) && rng.chance(1, 2) { rng.range(1, 4) } else { 0 }}, "steps": steps, "sched": serde_json::to_value(&sched).unwrap(), "hang_is_violation": true})
@@ -172,10 +173,14 @@ impl Engine for RollingEngine {
         let steps: Vec<Value> = plan["steps"].as_array().cloned().unwrap_or_default();
         let result: Arc<Mutex<Vec<Phase>>> = Arc::new(Mutex::new(vec![]));
         let result2 = result.clone();
-        let dir = std::env::temp_dir().join(format!("tsim-rolling-{}", std::process::id()));
-        let _ = std::fs::remove_dir_all(&dir);
+        // the log directory sits two levels below a scratch root, so that "the directory vanished" can mean the
+        // directory itself or the tree above it
+        let root = std::env::temp_dir().join(format!("tsim-rolling-{}", std::process::id()));
+        let dir = root.join("logs").join("app");
+        let _ = std::fs::remove_dir_all(&root);
         let _ = std::fs::create_dir_all(&dir);
         let dir2 = dir.clone();
+        let root2 = root.clone();
         let cfg2 = cfg.clone();
         let final_files: Arc<Mutex<BTreeMap<String, Vec<u8>>>> = Arc::new(Mutex::new(BTreeMap::new()));
         let ff2 = final_files.clone();
@@ -303,7 +308,12 @@ impl Engine for RollingEngine {
                 // the appender has to create the new period's file (and the directory) again
                 let mut rmdir = false;
                 if s["rmdir"].as_bool().unwrap_or(false) && boundary != 0 && now >= boundary {
-                    let _ = std::fs::remove_dir_all(&dir2);
+                    if s["rmdir_deep"].as_bool().unwrap_or(false) {
+                        let _ = std::fs::remove_dir_all(root2.join("logs"));
+                        fault("log_directory_tree_removed");
+                    } else {
+                        let _ = std::fs::remove_dir_all(&dir2);
+                    }
                     fault("log_directory_removed");
                     rmdir = true;
                     removed_any = true;
@@ -368,7 +378,7 @@ impl Engine for RollingEngine {
             }
         };
         let cfg3 = cfg.clone();
-        let dir3 = dir.clone();
+        let dir3 = root.clone();
         let finish = move || {
             let phases = result.lock().unwrap().clone();
             let files = final_files.lock().unwrap().clone();
